@@ -41,6 +41,22 @@ def generate(unit, here, out, repo, subst, instance=None):
                 txt = txt.replace("@" + k + "@", str(v))
             lines = []
             for ln in txt.split("\n"):
+                ma = re.match(r"\s*//@KCUT_ARM (\S+) :: arm (.*?) as (\w+)(\(.*\)(?:\s*->\s*.*?)?) in (fn .*|method .*)$", ln)
+                if ma:
+                    # rule X4: a match arm cut verbatim and re-headed as a function
+                    f = sf(ma.group(1))
+                    it = f.find(ma.group(5).strip())
+                    text, cs, ce = f.arm_as_fn(it, ma.group(2).strip(), ma.group(3), ma.group(4))
+                    from .rustlex import line_of
+                    l0, l1 = line_of(f.src, cs), line_of(f.src, ce)
+                    raw = f.src[cs:ce]
+                    lines.append(f"// ---- vx cut {ma.group(1)} :: arm {ma.group(2)} of {ma.group(5)} (lines {l0}-{l1}, sha256 {sha(raw)[:16]}) ----")
+                    lines.append(text)
+                    lines.append("// ---- vx end ----")
+                    files.append({"unit": "kani/" + unit, "item": f"arm {ma.group(2).strip()} of {ma.group(5).strip()}", "file": ma.group(1),
+                                  "lines": [l0, l1], "sha256": sha(raw),
+                                  "extraction": ["X4: match arm body verbatim, re-headed as `fn " + ma.group(3) + ma.group(4) + "`"]})
+                    continue
                 m = re.match(r"\s*//@KCUT(_X1)? (\S+) :: (.*)$", ln)
                 if not m:
                     lines.append(ln)
